@@ -121,7 +121,8 @@ def judgeStats (vals rv : List Bits) (mn mean mx : Bits) : String :=
     let lo := q1 - mkRat 3 2 * (q3 - q1)
     let hi := q3 + mkRat 3 2 * (q3 - q1)
     let big := qs.foldl (fun a x => if rabs x > a then rabs x else a) 0
-    let eps := big * pow2 40
+    -- with a zero interquartile range the float computation of the fence is exact (q ± 1.5·0)
+    let eps := if q1 == q3 then 0 else big * pow2 40
     if !matchRetained lo hi eps vals rv then "retained"
     else if rv.isEmpty then (if isNaN mn && isNaN mean && isNaN mx then "ok" else "empty-not-nan")
     else
